@@ -195,55 +195,6 @@ Proof.
     intros b. rewrite Hr, Hq, flat_map_app, transmitted_app, app_assoc. reflexivity.
 Qed.
 
-Lemma live_app_ now a b : live now (a ++ b) = live now a ++ live now b.
-Proof. unfold live. apply filter_app. Qed.
-
-Lemma live_transmitted_ now es : live now (transmitted now es) = transmitted now es.
-Proof.
-  unfold live, transmitted. induction (filter (fun e => 0 <? resp_size (fst e)) es) as [|e r IH]; [reflexivity|].
-  cbn [map filter]. unfold is_live at 1. cbn [snd]. rewrite N.sub_diag. change (0 <? expiry_secs) with true. cbn iota. f_equal. exact IH.
-Qed.
-
-(* ---- the timer ---- *)
-Lemma reap_q_sub now l q : forall u, sublist (live now l) q -> sublist (live now l) (fst (reap_q q u now)).
-Proof.
-  induction q as [|[ty c] rest IH]; intros u Hs; cbn [reap_q]; [exact Hs|].
-  destruct (expiry_secs <=? now - c) eqn:Ex; [|exact Hs].
-  apply IH. apply (sublist_cons_not (fun e => is_live now e = true) _ _ (ty, c) Hs (live_all_live now l)).
-  unfold is_live. cbn [snd]. apply N.leb_le in Ex. intro Hc. apply N.ltb_lt in Hc. lia.
-Qed.
-
-Lemma reap_resp_sub now l v : sublist (live now l) (n_resp v) -> sublist (live now l) (n_resp (reap v now)).
-Proof.
-  intros Hs. unfold reap. pose proof (reap_q_sub now l (n_resp v) (n_used v) Hs) as H.
-  destruct (reap_q (n_resp v) (n_used v) now) as [q u]. exact H.
-Qed.
-
-Lemma sublist_app2' {X} (a b c : list X) : sublist a b -> sublist (a ++ c) (b ++ c).
-Proof. intros H. apply sublist_app; [exact H|apply sublist_refl]. Qed.
-
-Lemma expire_loop_resp ks : forall t now acc spec, (forall b, sublist (live now (spec b)) (n_resp (get t b))) ->
-  let '(t', gs) := expire_loop ks t now acc in
-  exists more, gs = acc ++ more /\
-    forall b, sublist (live now (spec b) ++ transmitted now (flat_map (rel_of b) more)) (n_resp (get t' b)).
-Proof.
-  induction ks as [|a r IH]; intros t now acc spec HR; cbn [expire_loop].
-  - exists []. rewrite app_nil_r. split; [reflexivity|]. intros b. cbn. rewrite app_nil_r. apply HR.
-  - assert (H1 : forall b, sublist (live now (spec b)) (n_resp (get (store t a (reap (get t a) now)) b))).
-    { intros b. destruct (addr_eqb_spec a b) as [<-|Hn].
-      - rewrite get_store_same. apply reap_resp_sub. apply HR.
-      - rewrite get_store_other by exact Hn. apply HR. }
-    destruct (head_fits (reap (get t a) now)); [|apply IH; exact H1].
-    pose proof (try_queued_resp (store t a (reap (get t a) now)) a now) as Hq.
-    destruct (try_queued (store t a (reap (get t a) now)) a now) as [t2 o]. destruct Hq as [_ Hq].
-    specialize (IH t2 now (acc ++ o) (fun b => spec b ++ transmitted now (flat_map (rel_of b) o))).
-    destruct (expire_loop r t2 now (acc ++ o)) as [t' gs].
-    destruct IH as (more & Hgs & Hr).
-    { intros b. rewrite Hq, live_app_, live_transmitted_. apply sublist_app2'. apply H1. }
-    exists (o ++ more). split; [rewrite Hgs, app_assoc; reflexivity|].
-    intros b. specialize (Hr b). rewrite live_app_, live_transmitted_, <- app_assoc, <- transmitted_app, <- flat_map_app in Hr. exact Hr.
-Qed.
-
 (* ---- on_update / on_stall / uplink ---- *)
 Definition R (now : N) (spec : list N -> list (N * N)) (t : table) : Prop :=
   forall b, sublist (live now (spec b)) (n_resp (get t b)).
@@ -314,7 +265,7 @@ Lemma tab_step_budget t so now e spec : R now spec t -> clock_mono_step now e = 
   let '(t', _, now', gouts, _) := tab_step t so now e in
   R now' (fun b => spec_step b now e gouts (spec b)) t'.
 Proof.
-  intros HR Hm. destruct e as [a3 ty data|a rty last|n| |c|bb| |]; cbn [tab_step].
+  intros HR Hm. destruct e as [a3 ty data|a rty last|n| |c|bb|]; cbn [tab_step].
   - (* FSend *)
     unfold submit_tab.
     assert (H1 : exists t1 sq, (if so then alloc_sseq t (canon a3) else (t, 0)) = (t1, sq) /\ forall b, n_resp (get t1 b) = n_resp (get t b)).
@@ -352,10 +303,6 @@ Proof.
   - intros b. apply HR.
   - intros b. apply HR.
   - intros b. cbn [spec_step]. unfold get; cbn. constructor.
-  - (* FExpire *)
-    unfold on_expire. pose proof (expire_loop_resp (map fst t) t now [] spec HR) as He.
-    destruct (expire_loop (map fst t) t now []) as [t1 gs]. destruct He as (more & Hgs & Hr). cbn [app] in Hgs. subst more.
-    intros b. cbn [spec_step]. rewrite released_rel, live_app, live_transmitted. apply Hr.
 Qed.
 
 (* the specification's accounting along a whole history *)
@@ -376,10 +323,9 @@ Fixpoint clock_mono (now : N) (es : list fev) : bool :=
 
 Lemma tab_step_now t so now e : let '(_, _, now', _, _) := tab_step t so now e in now' = match e with FTime n => n | _ => now end.
 Proof.
-  destruct e as [a3 ty data|a rty last|n| |c|bb| |]; cbn [tab_step]; try reflexivity.
+  destruct e as [a3 ty data|a rty last|n| |c|bb|]; cbn [tab_step]; try reflexivity.
   - destruct (submit_tab t so a3 ty data now) as [[[[t1 sq] m] ok]|]; reflexivity.
   - destruct (uplink_tab t a rty last now). reflexivity.
-  - destruct (on_expire t now). reflexivity.
 Qed.
 
 Lemma spec_run_inv es : forall t so now spec, R now spec t -> clock_mono now es = true ->
